@@ -210,6 +210,8 @@ func (cap *commandArgParser) parseOneOf(args redisArgs, argIndex int, input ...r
 }
 
 func (cap *commandArgParser) parseInputBlock(args redisArgs, argIndex int, input ...respValue) (block *orderedMap, inputsUsed int) {
+	// args belongs to the command table shared by all connections and is extended below: work on a copy
+	args = append(redisArgs{}, args...)
 	argPos := 0
 	block = newOrderedMap()
 	skippedOptionals := redisArgs{}
@@ -270,6 +272,8 @@ func (cap *commandArgParser) parseInputBlock(args redisArgs, argIndex int, input
 }
 
 func (cap *commandArgParser) parseEachInput(args redisArgs, input ...respValue) (values *orderedMap, inputsUsed int, valid bool) {
+	// args belongs to the command table shared by all connections and is extended below: work on a copy
+	args = append(redisArgs{}, args...)
 	values = newOrderedMap()
 	apos := 0
 	ipos := 0
